@@ -244,6 +244,15 @@ func mutations(c refCfg, rng *rand.Rand) []refCfg {
 		}
 		m.mut = fmt.Sprintf("pipeline inclusion cycle of length %d", l)
 		out = append(out, m)
+		// the same cycle behind several entry pipelines that are not on it: wherever the check starts, it must find it
+		e := cloneCfg(m)
+		for k := 0; k < 8; k++ {
+			name := fmt.Sprintf("entry%d", k)
+			e.porder = append(e.porder, name)
+			e.pipelines[name] = []refStage{{name: "first", task: c.tasks[0]}, {name: "then", pipeline: c.porder[k%l], deps: []string{"first"}}}
+		}
+		e.mut = fmt.Sprintf("pipeline inclusion cycle of length %d behind 8 entry pipelines", l)
+		out = append(out, e)
 	}
 	return out
 }
